@@ -103,7 +103,7 @@ var c19Units = []struct {
 func c19GenRate(t *rapid.T) c19Rate {
 	if rapid.IntRange(0, 5).Draw(t, "malformed") == 0 {
 		txt := rapid.SampledFrom([]string{"", "x", "1/", "1/1", "1/s/s", " 1", "1 ", "/s", "1/x", "one", "1.5", "1.5/s", "99999999999999999999", "99999999999999999999/s",
-			"1/2", "1//s", "s", "1/1 s", "0x10/s", "1e3"}).Draw(t, "mtext")
+			"1/2", "1//s", "s", "1/1 s", "0x10/s", "1e3", "0b101", "0o17/s", "1_000", "0_7/s", "0x1p4"}).Draw(t, "mtext")
 		return c19Rate{Text: txt, Reject: true}
 	}
 	var c c19Rate
@@ -122,6 +122,10 @@ func c19GenRate(t *rapid.T) c19Rate {
 	n := strconv.FormatInt(c.Freq, 10)
 	if rapid.IntRange(0, 7).Draw(t, "plus") == 0 {
 		n = "+" + n
+		c.MayReject = true
+	}
+	if rapid.IntRange(0, 7).Draw(t, "padded") == 0 {
+		n = rapid.SampledFrom([]string{"0", "00", "000"}).Draw(t, "zeros") + n // zero-padded: still a decimal number if accepted at all
 		c.MayReject = true
 	}
 	switch rapid.IntRange(0, 3).Draw(t, "dk") {
